@@ -147,64 +147,21 @@ func (db *DB) ReviveObject(addr oid.Address) (res ReviveStatus, err error) {
 }
 
 func reviveCounters(metaC *bbolt.Cursor, gcStatus uint8, obj oid.ID) error {
-	var (
-		typ  object.Type = -1
-		phy  bool
-		root bool
-		size uint64
-	)
+	var size uint64
 
 	for k, v := range iterIDAttrs(metaC, obj) {
-		switch string(k) {
-		case object.FilterPayloadSize:
+		if string(k) == object.FilterPayloadSize {
 			size, _ = strconv.ParseUint(string(v), 10, 64)
-		case object.FilterType:
-			typ.DecodeString(string(v))
-		case object.FilterPhysical:
-			phy = string(v) == binPropMarker
-		case object.FilterRoot:
-			root = string(v) == binPropMarker
-		default:
 		}
 	}
 
+	// Type, PHY and ROOT counters follow the index which keeps the object
+	// while it is marked, only the payload was excluded from the estimations.
 	switch gcStatus {
 	case statusTombstoned, statusGCMarked:
 		err := updateCounter(metaC.Bucket(), payloadCounter, int64(size))
 		if err != nil {
 			return fmt.Errorf("update payload counter: %w", err)
-		}
-	default:
-	}
-
-	switch typ {
-	case object.TypeRegular:
-		if phy {
-			err := updateCounter(metaC.Bucket(), phyCounter, 1)
-			if err != nil {
-				return fmt.Errorf("revive PHY counter : %w", err)
-			}
-		}
-		if root {
-			err := updateCounter(metaC.Bucket(), rootCounter, 1)
-			if err != nil {
-				return fmt.Errorf("revive ROOT counter : %w", err)
-			}
-		}
-	case object.TypeTombstone:
-		err := updateCounter(metaC.Bucket(), tsCounter, 1)
-		if err != nil {
-			return fmt.Errorf("revive TS counter : %w", err)
-		}
-	case object.TypeLock:
-		err := updateCounter(metaC.Bucket(), lockCounter, 1)
-		if err != nil {
-			return fmt.Errorf("revive LOCK counter : %w", err)
-		}
-	case object.TypeLink:
-		err := updateCounter(metaC.Bucket(), linkCounter, 1)
-		if err != nil {
-			return fmt.Errorf("revive LINK counter : %w", err)
 		}
 	default:
 	}
